@@ -472,3 +472,12 @@ VARIANTS += [
     V("C05", "callable exemption only without annotation (the repair C05.POSITIONS asks for)", VIS, "            and not isinstance(attribute_type, mp_types.CallableType)\n", "            and not (isinstance(attribute_type, mp_types.CallableType) and unanalyzed_type is None)\n", None),
     V("C05", "property results joined as a tuple (the repair C05.POSITIONS asks for)", GEN, "        result_union = UnionType(types=result_types)\n        types_data = result_union.to_dict()", "        from safeds_stubgen.api_analyzer import TupleType\n        result_union = TupleType(types=result_types) if len(result_types) > 1 else UnionType(types=result_types)\n        types_data = result_union.to_dict()", None),
 ]
+VARIANTS += [
+    V("C09", "converted names may start with a digit", HELP, "    if converted_name[:1].isdigit():\n        return f\"_{converted_name}\"\n\n", "", "C09.CONVERT-SHAPE"),
+    V("C09", "benign: digit test through isidentifier", HELP, "    if converted_name[:1].isdigit():\n        return f\"_{converted_name}\"\n", "    if not converted_name.isidentifier():\n        return f\"_{converted_name}\"\n", None),
+]
+VARIANTS += [
+    V("C12", "infinite float defaults written to the API file", VIS, "                if isinstance(inferred_default_value, float) and not math.isfinite(inferred_default_value):\n                    # A float literal which is too large (e.g. 1e999) is infinite and cannot be written as JSON number\n                    return UnknownValue(), default_is_none\n                elif isinstance(inferred_default_value, bool | int | float | NoneType):", "                if isinstance(inferred_default_value, bool | int | float | NoneType):", "C12.STORES"),
+    V("C06", "every float default reported as unknown", VIS, "                if isinstance(inferred_default_value, float) and not math.isfinite(inferred_default_value):", "                if isinstance(inferred_default_value, float):", "C06.LITERAL-VALUE"),
+    V("C06", "benign: infinity recognised with isinf", VIS, "                if isinstance(inferred_default_value, float) and not math.isfinite(inferred_default_value):", "                if isinstance(inferred_default_value, float) and (math.isinf(inferred_default_value) or math.isnan(inferred_default_value)):", None),
+]
